@@ -179,6 +179,18 @@ func c02() []*Ob {
 				if fn == nil {
 					return
 				}
+				// guarded by the hasHist variable which is HasHist()
+				guarded := func(at ssa.Instruction) bool {
+					for _, f := range FactsAtInstr(at) {
+						if f.Val && DerivesFrom(f.Cond, func(v ssa.Value) bool {
+							cl, isC := v.(ssa.CallInstruction)
+							return isC && CallName(cl) == "(*frac/processor.SearchParams).HasHist" || isC && CallName(cl) == "(frac/processor.SearchParams).HasHist"
+						}) {
+							return true
+						}
+					}
+					return false
+				}
 				n := 0
 				for _, d := range c.P.DivSites(fn) {
 					n++
@@ -186,24 +198,48 @@ func c02() []*Ob {
 						c.Site(d.Op.Pos(), "histogram modulo: %s", d.Proof)
 						continue
 					}
-					// guarded by the hasHist variable which is HasHist()
-					ok := false
-					for _, f := range FactsAtInstr(d.Op) {
-						if f.Val && DerivesFrom(f.Cond, func(v ssa.Value) bool {
-							cl, isC := v.(ssa.CallInstruction)
-							return isC && CallName(cl) == "(*frac/processor.SearchParams).HasHist" || isC && CallName(cl) == "(frac/processor.SearchParams).HasHist"
-						}) {
-							ok = true
-						}
-					}
-					if ok {
+					if guarded(d.Op) {
 						c.Site(d.Op.Pos(), "histogram modulo runs only when params.HasHist()")
 					} else {
 						c.Violation("div:iterateEvalTree:hist", d.Op.Pos(), "the histogram bucket is computed with mid %% HistInterval without HasHist() being true: a search without histogram divides by zero")
 					}
 				}
 				if n == 0 {
-					c.Undecided("div:iterateEvalTree:none", fn.Pos(), "no modulo in iterateEvalTree")
+					// the bucket computation may have been moved into a private helper: every call of it must be guarded
+					seen := map[*ssa.Function]bool{}
+					for _, call := range CallsIn(fn, nil) {
+						h := StaticCallee(call)
+						if h == nil || h.Blocks == nil || !c.P.InRepo(h) || h.Object() == nil || h.Object().Exported() {
+							continue
+						}
+						sites := c.P.DivSites(h)
+						if len(sites) == 0 {
+							continue
+						}
+						n += len(sites)
+						allProved := true
+						for _, d := range sites {
+							if d.Proof == "" {
+								allProved = false
+							}
+						}
+						if allProved || guarded(call.(ssa.Instruction)) {
+							c.Site(call.Pos(), "histogram modulo (in %s) runs only when params.HasHist()", FuncName(h))
+						} else {
+							c.Violation("div:iterateEvalTree:hist", call.Pos(), "the histogram bucket is computed (in %s) without HasHist() being true: a search without histogram divides by zero", FuncName(h))
+						}
+						if !seen[h] {
+							seen[h] = true
+							for _, other := range c.P.Callers(h) {
+								if other.Parent() != fn && !allProved {
+									c.Undecided("div:"+FuncName(h)+":other-callers", other.Pos(), "%s divides by its argument and is also called from %s", FuncName(h), FuncName(other.Parent()))
+								}
+							}
+						}
+					}
+				}
+				if n == 0 {
+					c.Undecided("div:iterateEvalTree:none", fn.Pos(), "no modulo in iterateEvalTree or its private helpers")
 				}
 				if hh := c.P.Func("(frac/processor.SearchParams).HasHist"); hh != nil && len(hh.Blocks) == 1 {
 					ret := hh.Blocks[0].Instrs[len(hh.Blocks[0].Instrs)-1].(*ssa.Return)
